@@ -18,7 +18,7 @@ EXPLANATION = ("real accessor_to_latter_map / latter_map_to_accessor / accessor_
                "leaf multisets up to depth 3 from both representations against walk end points, and the rejection of an illegal matrix entry")
 STUBS = []
 ASSUMPTIONS = ["every path pins all free arcs (solver query per path)"]
-BUDGET_S = {"quick": 900, "thorough": 7200}
+BUDGET_S = {"quick": 900, "thorough": 1500}
 SLICE_PATHS = 200
 SEED = int(os.environ.get("VERIF_SEED", "0") or 0)
 
@@ -129,7 +129,10 @@ def body(e, L, cfg):
                     if la != sorted(cur) or lb != sorted(cur):
                         return fail("leaf query root=%d depth=%d differs from the walk end points" % (root, d))
             for u in range(N):           # one illegal arc in every row in turn (rows of every out-degree)
-                v = [x for x in range(N) if x not in [succ(u, j, k) for j in range(4)]][0]
+                others = [x for x in range(N) if x not in [succ(u, j, k) for j in range(4)]]
+                if not others:          # order 1: every vertex is a shift successor, no illegal arc exists
+                    continue
+                v = others[0]
                 bad = symnp.array(exp_m)
                 bad[u, v] = 1
                 cex["illegal"] = [u, v]
